@@ -12,6 +12,20 @@ NOT_APPLICABLE = {}
 HOOK_COMMITS = []
 
 CHECKS = {
+    "C20": {
+        "run": "^TestC20_",
+        "rule": ("cases = (limiter {native, ulule with the in-memory store}, quota 1-3, window 5-40 ms (ulule: 3-10 ms, or one hour for the exact model), 1-3 keys, arrival timeline "
+                 "{burst, steady, sparse, mixed}, ending, synchronous or asynchronous source). Non-trivial = some key exceeds its quota inside one window, i.e. the limiter has to "
+                 "drop; distinct by descriptor hash."),
+        "quick": {"rapid": 400, "timeout": 300, "shards": 4},
+        "thorough": {"rapid": 6000, "timeout": 3000, "shards": 16},
+        "assumptions": COMMON_ASSUMPTIONS + ["native limiter runs in virtual time (synctest); the ulule limiter reads the wall clock: with short periods only the alignment-independent bound is asserted, with a one-hour period the exact model"],
+        "technique": "property-based testing of generated key distributions and timelines with an alignment-independent quota bound, per-key subsequence check and terminal propagation",
+        "level_text": ("Exploration. For every generated timeline: per key, the items passed within any span L never exceed quota x (floor(L/window) + 2); per key the output is a "
+                       "strictly increasing subsequence of that key's input (order kept, nothing duplicated or invented); with a period far longer than the run exactly the first "
+                       "`quota` items of each key pass, keys independently; completion and error of the source reach the subscriber; the native limiter leaves no goroutine behind."),
+        "level_note": "No 'nothing is lost' clause: the property does not state one.",
+    },
     "C17": {
         "run": "^TestC17_",
         "rule": ("cases = (ToChannel | FromChannel, channel capacity 0-3, script and ending, consumer behaviour {reads to the end, pauses between reads, stops after k reads}, Unsubscribe after k "
